@@ -318,3 +318,62 @@ def ob_tick_pages(sel: int, extra_run: bool) -> bool:
                     pass
         want = [("r0", i, freeze({"i": i})) for i in range(n)]
         return a == b and a == ("ok", (want, want))
+
+
+# ----------------------------------------------------------------------------------------------- the same CONCURRENT history in both modes
+from vlib.miniloop import MiniLoop as _MiniLoop21  # noqa: E402
+
+_W_SET, _W_SET_STATE, _W_CLEAR, _W_EDIT = range(4)
+
+
+def _concurrent_history(single: bool, kw: int, te: int, de: int, tw: int, dirpath: str) -> Any:
+    """two state-store objects of ONE run handed out by one SqliteWorkflowStore (what two step invocations get): through the first, an
+    edit_state block that starts at te, reads x, is suspended for de and writes x + 1 / y = 7; through the second, at tw, a writer
+    (set / set_state / clear / an edit_state block without suspension).  Returns the final state as plain data."""
+    ws = SqliteWorkflowStore(os.path.join(dirpath, "single.db" if single else "percall.db"), single_connection=single)
+    a, b, c = (ws.create_state_store("run-1") for _ in range(3))
+    drive(c.set_state(DictState(x=0, y=0)))
+
+    async def editor() -> None:
+        await asyncio.sleep(te)
+        async with a.edit_state() as s:
+            x = s.get("x", 0)
+            await asyncio.sleep(de)
+            s["x"] = x + 1
+            s["y"] = 7
+
+    async def writer() -> None:
+        await asyncio.sleep(tw)
+        if kw == _W_SET:
+            await b.set("x", 100)
+        elif kw == _W_SET_STATE:
+            await b.set_state(DictState(x=50, z=1))
+        elif kw == _W_CLEAR:
+            await b.clear()
+        else:
+            async with b.edit_state() as s:
+                s["x"] = s.get("x", 0) + 10
+
+    async def main() -> Any:
+        await asyncio.gather(asyncio.ensure_future(editor()), asyncio.ensure_future(writer()))
+        return (await c.get_state()).model_dump()
+
+    out = _MiniLoop21().run_until_complete(main())
+    return freeze(out)
+
+
+@obligation(quick=200, thorough=400, partitions_quick=[f"kw == {k}" for k in range(4)], partitions_thorough=[f"kw == {k} and te == {t}" for k in range(4) for t in (0, 1)],
+            what="the same CONCURRENT history of state-store operations — an edit_state block suspended between its load and its write-back through "
+                 "one store object of a run, a writer (set / set_state / clear / edit_state) through another object of the same run at a "
+                 "symbolic instant before, inside or after the block — ends in the same state on a single_connection=True store and on a "
+                 "per-call-connection store",
+            bounds={"block": "start 0..1, suspended 0..2", "writer": "4 kinds, instant 0..3", "store objects of the run": "2 (+1 reader)"})
+def ob_concurrent_history_mode_equivalence(kw: int, te: int, de: int, tw: int) -> bool:
+    """
+    pre: 0 <= kw <= 3 and 0 <= te <= 1 and 0 <= de <= 2 and 0 <= tw <= 3
+    post: _
+    """
+    kw, te, de, tw = pick_int(kw, 0, 3), pick_int(te, 0, 1), pick_int(de, 0, 2), pick_int(tw, 0, 3)
+    with untraced():
+        with TmpDir() as d:
+            return _concurrent_history(True, kw, te, de, tw, d) == _concurrent_history(False, kw, te, de, tw, d)
